@@ -45,6 +45,9 @@ theorem processO_eq (p : Plugin) (q : Json) : processO p q = .ok (processT p q) 
     cases lookupStr t q.toCompact with
     | none => rfl
     | some e => cases e <;> rfl
+  | userSplit key => rfl
+  | userFailOn m => rfl
+  | userBreaker key => rfl
 
 /-! ### the code is the function: pipeline -/
 
@@ -566,7 +569,11 @@ theorem applyOps_error : ∀ (ops : List (Json → Except PErr Json)) (items : L
       simp only [applyOps, jsonArrayOp, hm, flattenInPlace_arr, h2]
 
 /-- every built-in plugin keeps objects objects (grid search: an object, or its non-empty expansion) -/
-theorem processT_objOp (p : Plugin) (hp : ∀ t, p ≠ .table t) : ObjOp (processT p) := by
+theorem splitChild_isObject (base : List (String × Json)) (v : Json) :
+    (splitChild base v).isObject = true := by
+  cases v <;> rfl
+
+theorem processT_objOp (p : Plugin) (hp : p.wellBehaved = true) : ObjOp (processT p) := by
   intro q r ho h
   cases p with
   | gridSearch =>
@@ -623,7 +630,26 @@ theorem processT_objOp (p : Plugin) (hp : ∀ t, p ≠ .table t) : ObjOp (proces
       simp only [hc, addWeight] at h
       cases q <;> simp at h
       subst h; exact Or.inl rfl
-  | table t => exact absurd rfl (hp t)
+  | table t => simp [Plugin.wellBehaved] at hp
+  | userBreaker key => simp [Plugin.wellBehaved] at hp
+  | userFailOn m =>
+    simp only [processT, userT] at h
+    cases hm : q.get? m with
+    | some v => simp [hm] at h
+    | none => simp only [hm, Except.ok.injEq] at h; subst h; exact Or.inl ho
+  | userSplit key =>
+    simp only [processT, userT] at h
+    cases q with
+    | obj kvs =>
+      simp only at h
+      split at h
+      · simp only [Except.ok.injEq] at h
+        subst h
+        right
+        refine ⟨_, rfl, by simp, ?_⟩
+        simp [List.all_map, Function.comp_def, splitChild_isObject]
+      · simp only [Except.ok.injEq] at h; subst h; exact Or.inl rfl
+    | _ => simp [Json.isObject] at ho
 
 /-! ### worker interleavings -/
 
